@@ -8,16 +8,13 @@ package environment
 
 //@ func NewEnvironment [C03]
 //@ ensures [fresh] fresh(result) && envParent(result) == 0 && envTable(result) != 0
-//@ ensures [empty] forall(k, Str, !envHere(result, k))
-//@ ensures [frame] forall(r, Int, objDom(r) == old(objDom(r)) || !old(mapAllocated(r))) && forall(r, Int, objVals(r) == old(objVals(r)) || !old(mapAllocated(r)))
-//@ ensures [tables] !old(mapAllocated(now(envTable(result))))
+//@ ensures [table] !old(mapAllocated(now(envTable(result))))
+//@ ensures [heap] curMD() == store(old(curMD()), envTable(result), emptyDom) && curMV() == old(curMV()) && curMC() == store(old(curMC()), envTable(result), 0)
 
 //@ func NewEnvironmentWithParent [C03,C04]
 //@ ensures [fresh] fresh(result) && envParent(result) == parent && envTable(result) != 0
-//@ ensures [empty] forall(k, Str, !envHere(result, k))
-//@ ensures [frame] forall(r, Int, objDom(r) == old(objDom(r)) || !old(mapAllocated(r))) && forall(r, Int, objVals(r) == old(objVals(r)) || !old(mapAllocated(r)))
-//@ ensures [tables] !old(mapAllocated(now(envTable(result))))
-//@ ensures [others] forall(r, Int, r != result ==> envTable(r) == old(envTable(r)) && envParent(r) == old(envParent(r)))
+//@ ensures [table] !old(mapAllocated(now(envTable(result))))
+//@ ensures [heap] curMD() == store(old(curMD()), envTable(result), emptyDom) && curMV() == old(curMV()) && curMC() == store(old(curMC()), envTable(result), 0)
 
 //@ func (e *Environment) Define [C03]
 //@ inline
